@@ -18,6 +18,7 @@ func genC37(t *Tape) *Plan {
 	nconn := 1 + t.Draw("c37.nconn", 3)
 	type cs struct{ k uint16 }
 	var conns []cs
+	subscribed := map[int]bool{}
 	for s := 0; s < nconn; s++ {
 		k := uint16(t.Draw("c37.k", 4))
 		if t.Draw("c37.bigk", 6) == 0 {
@@ -30,6 +31,7 @@ func genC37(t *Tape) *Plan {
 		plan.Ops = append(plan.Ops, Op{Kind: "connect", Slot: s, Pkt: &refcodec.Packet{Type: refcodec.CONNECT, ProtoVer: ver, ClientID: fmt.Sprintf("k%d", s), CleanStart: true, KeepAlive: k}})
 		conns = append(conns, cs{k})
 		if t.Draw("c37.sub", 2) == 0 {
+			subscribed[s] = true
 			// the idle client also receives traffic: only packets *from* the client count for its keepalive
 			plan.Ops = append(plan.Ops, Op{Kind: "subscribe", Slot: s, Pkt: &refcodec.Packet{Type: refcodec.SUBSCRIBE, PacketID: 1, Filters: []refcodec.Filter{{Filter: "t", Opts: byte(t.Draw("c37.subqos", 2))}}}})
 		}
@@ -46,6 +48,16 @@ func genC37(t *Tape) *Plan {
 		mult := []int{500, 1000, 1200, 1240, 1760, 1800, 2000, 3000}[t.Draw("c37.gap", 8)]
 		plan.Ops = append(plan.Ops, Op{Kind: "advance", Ms: base * mult})
 		kind := t.Draw("c37.pkt", 3)
+		if !subscribed[s] && t.Draw("c37.split", 3) == 0 {
+			// a streaming client / fragmenting path: one segment carries a whole PINGREQ and the first byte of the
+			// next one, whose second byte follows after a further gap. (Only on connections that never receive
+			// anything to acknowledge: the simulated client's own replies would land inside the split packet.)
+			plan.Ops = append(plan.Ops, Op{Kind: "raw", Slot: s, Raw: []byte{0xC0, 0x00, 0xC0}, Note: "ping+prefix"})
+			mult2 := []int{500, 1000, 1200, 1240, 1760, 2000}[t.Draw("c37.gap2", 6)]
+			plan.Ops = append(plan.Ops, Op{Kind: "advance", Ms: base * mult2})
+			plan.Ops = append(plan.Ops, Op{Kind: "raw", Slot: s, Raw: []byte{0x00}, Note: "rest"})
+			continue
+		}
 		switch kind {
 		case 0, 1:
 			plan.Ops = append(plan.Ops, Op{Kind: "ping", Slot: s, Pkt: &refcodec.Packet{Type: refcodec.PINGREQ}})
@@ -76,10 +88,36 @@ func checkC37(r *Result) []Violation {
 		}
 		K := int64(cp.KeepAlive)
 		// times at which a complete client packet was handed to the broker
+		// (a raw operation may carry a packet and the first bytes of the next one: the client's byte stream is
+		// reassembled and every packet is stamped with the delivery of its last byte)
 		var times []int64
+		var stream []byte
+		off := map[int]int{}
 		for _, e := range r.H.Evs {
-			if e.Kind == "in" && e.Conn == c.Idx && e.Last {
+			if e.Kind != "in" || e.Conn != c.Idx {
+				continue
+			}
+			if e.Op < 0 || e.Op >= len(r.Plan.Ops) || r.Plan.Ops[e.Op].Raw == nil {
+				if e.Last {
+					times = append(times, e.VT)
+				}
+				continue
+			}
+			raw := r.Plan.Ops[e.Op].Raw
+			from := off[e.Op]
+			to := from + int(e.N)
+			if to > len(raw) {
+				to = len(raw)
+			}
+			off[e.Op] = to
+			stream = append(stream, raw[from:to]...)
+			for {
+				_, _, total, err := refcodec.Frame(stream)
+				if err != nil {
+					break
+				}
 				times = append(times, e.VT)
+				stream = stream[total:]
 			}
 		}
 		closeVT := int64(-1)
